@@ -90,8 +90,16 @@ class FnView:
         if self.restrict is not None:
             ds = [d for d in ds if d[0] in self.restrict]
         if len(ds) == 1 and not self._mut_partial(local):
+            # a value that is later mutated through `&mut local` (extend, push, closures capturing it mutably)
+            # is not described by its initialiser
             return ds[0]
         return None
+
+    def _mut_borrowed_cached(self, local):
+        c = self.__dict__.setdefault("_mb_cache", {})
+        if local not in c:
+            c[local] = self._mut_borrowed(local)
+        return c[local]
 
     def restricted(self, live):
         """same function, but a local counts as single-definition when only one of its
@@ -463,10 +471,13 @@ class FnView:
             return ("var", f"_{local}")
         self._expr_cache[key] = ("var", self._vname(local))  # cycle guard
         e = self._local_expr(local, depth)
-        if self.keep_names and e[0] not in ("param", "var", "let"):
+        if e[0] not in ("param", "var", "let"):
             n = self.b.local_name(local)
             if n is not None and n not in DESUGAR_NAMES:
-                e = ("let", n, e)
+                # named views keep every user variable name; plain views keep the name of a variable that is
+                # later mutated through `&mut` (its initialiser alone does not describe it)
+                if self.keep_names or (not self.b.ty(local).startswith(("&", "*")) and self._mut_borrowed_cached(local)):
+                    e = ("let", n, e)
         self._expr_cache[key] = e
         return e
 
@@ -705,6 +716,8 @@ def render(e):
     if k == "tuple":
         return "(" + ", ".join(render(a) for a in e[1]) + ")"
     if k == "adt":
+        if not e[3] and e[1].endswith("option::Option") and e[2] == "None":
+            return "None"
         return f"{e[1]}::{e[2]}{{{', '.join(n + ': ' + render(v) for n, v in e[3])}}}"
     if k == "cast":
         return f"{render(e[2])} as {e[1]}"
